@@ -96,6 +96,8 @@ class BlockStream(SymSeq):
 
     def get(self, interp, k):
         key = k if isinstance(k, int) else k.t.get_id()
+        self._alive = getattr(self, "_alive", [])
+        self._alive.append(k)
         if key not in self._cache:
             shp = []
             for i, s in enumerate(self.base):
